@@ -17,9 +17,9 @@ use serde_json::{json, Value};
 use std::collections::HashSet;
 use std::path::{Path, PathBuf};
 
-pub const RULE: &str = "proptest-generated programs of up to 14 operations over a generated workspace (import cycles allowed): Load (scan-path analysis of the next file), Edit (full-text re-analysis: remove / insert / rename / imports-only / break / resend), Query (available fixtures, cycles, imported fixtures, go-to at every usage, scope mismatches, references, completion context per line). Every query answered by the warm index is compared with the same query on a cold twin built from the analyses alone; a full snapshot is compared at the end. Non-trivial = a query on a file precedes an edit, and a later query follows it; distinct = distinct programs.";
+pub const RULE: &str = "proptest-generated programs of up to 14 operations over a generated workspace (import cycles allowed): Load (scan-path analysis of the next file), Edit (full-text re-analysis: remove / insert / rename / imports-only / break / resend), Query (available fixtures, cycles, imported fixtures, go-to at every usage, scope mismatches, references, completion context per line). Every query answered by the warm index is compared with the same query on a cold twin built from the analyses alone; a full snapshot is compared at the end. Close / evict tier: the workspace is materialised; programs of 2-12 operations Edit (saved to disk, then analysed), Close (cleanup_file_cache of a document), Flood (2001 fixture-free files analysed so that the cache limit evicts a quarter of all entries), Query; after every close, flood and every later edit all 7 query kinds on all files are compared with an index that received the same analyses and no close / eviction. Non-trivial = a query on a file precedes an edit, and a later query follows it (close tier: an edit follows a close or eviction); distinct = distinct programs.";
 pub const ASSUMPTIONS: &[&str] = &[
-    "in-memory paths (close/evict run in the on-disk sub-checks)",
+    "warm-vs-cold sub-check: in-memory paths; close-evict sub-check: files on disk whose contents equal the last version sent (a closed document is a saved one)",
     "the cold twin is the implementation itself on a fresh database (metamorphic, no model)",
 ];
 
@@ -258,6 +258,153 @@ pub fn check_program(pg: &Program, info: &mut CaseInfo) -> Outcome {
     Outcome::Ok
 }
 
+// ---------------------------------------------------------------------------------------------
+// on-disk tier: closing documents and cache eviction
+// ---------------------------------------------------------------------------------------------
+
+#[derive(Clone, Debug, Serialize, Deserialize, PartialEq)]
+pub enum DOp {
+    /// save the new version to disk, then the editor notification
+    Edit(Step),
+    /// didClose: cleanup_file_cache of that document (its text is on disk)
+    Close(u16),
+    /// 2001 further (fixture-free) files are analysed: the file cache exceeds its limit and a
+    /// quarter of its entries - any of them - is evicted
+    Flood,
+    Query(u8, u16),
+}
+
+#[derive(Clone, Debug, Serialize, Deserialize)]
+pub struct DiskProgram {
+    pub ws: WorkspaceSpec,
+    pub ops: Vec<DOp>,
+}
+
+pub fn disk_cfg() -> GenCfg {
+    GenCfg { names: 3, max_depth: 3, max_items: 3, allow_dups_in_file: false, ..GenCfg::default() }
+}
+
+fn disk_program() -> impl Strategy<Value = DiskProgram> {
+    let c = disk_cfg();
+    let op = prop_oneof![
+        4 => (any::<u16>(), edit(&c)).prop_map(|(file, edit)| DOp::Edit(Step { file, edit, close_first: false })),
+        4 => any::<u16>().prop_map(DOp::Close),
+        1 => Just(DOp::Flood),
+        6 => (0u8..7, any::<u16>()).prop_map(|(k, f)| DOp::Query(k, f)),
+    ];
+    (workspace(c.clone()), vec(op, 2..=12)).prop_map(|(ws, ops)| DiskProgram { ws, ops })
+}
+
+fn query_disk(db: &FixtureDatabase, kind: u8, path: &str, text: &str) -> Value {
+    if kind % 7 == 6 {
+        // line count from the document text, not from the cache entry a close removes
+        let n = text.lines().count();
+        let v: Vec<Value> = (0..n.min(40)).map(|l| json!(format!("{:?}", db.get_completion_context(Path::new(path), l as u32, 4)))).collect();
+        return Value::Array(v);
+    }
+    query(db, kind, path)
+}
+
+pub fn check_disk(pg: &DiskProgram, info: &mut CaseInfo) -> Outcome {
+    let cfg = disk_cfg();
+    let disk = match crate::fsws::DiskWs::create(&pg.ws, "", None) {
+        Ok(d) => d,
+        Err(e) => return Outcome::Fail(format!("cannot materialise: {}", e)),
+    };
+    let mut it = Interp::new(&cfg, &pg.ws);
+    let paths: Vec<String> = it.files.iter().map(|f| disk.path(&f.loc)).collect();
+    let plugin_paths: Vec<String> = it.files.iter().enumerate().filter(|(_, f)| f.loc.is_plugin()).map(|(i, _)| paths[i].clone()).collect();
+    let new_db = || {
+        let db = FixtureDatabase::new();
+        for p in &plugin_paths {
+            db.plugin_fixture_files.insert(PathBuf::from(p), ());
+        }
+        db
+    };
+    let warm = new_db();
+    let mut analyses: Vec<(usize, String)> = Vec::new();
+    for &fi in &pg.ws.order() {
+        let _ = std::fs::write(&paths[fi], &it.files[fi].text);
+        warm.analyze_file(PathBuf::from(&paths[fi]), &it.files[fi].text);
+        analyses.push((fi, it.files[fi].text.clone()));
+    }
+    let cold = |analyses: &Vec<(usize, String)>| {
+        let db = new_db();
+        for (fi, t) in analyses {
+            db.analyze_file(PathBuf::from(&paths[*fi]), t);
+        }
+        db
+    };
+    let mut closed_or_evicted = false;
+    let compare_all = |warm: &FixtureDatabase, analyses: &Vec<(usize, String)>, it: &Interp, what: &str| -> Result<(), String> {
+        let c = cold(analyses);
+        for fi in 0..it.files.len() {
+            for kind in [0u8, 2, 3, 4, 5, 6, 1] {
+                let w = query_disk(warm, kind, &paths[fi], &it.files[fi].text);
+                let cq = query_disk(&c, kind, &paths[fi], &it.files[fi].text);
+                if w != cq {
+                    return Err(format!("{}: query {} on {}: the long-lived index answers {} but an index that received the same analyses and no close / eviction answers {}", what, QUERY_KINDS[kind as usize], it.files[fi].loc.rel(), w, cq));
+                }
+            }
+        }
+        Ok(())
+    };
+    for (k, op) in pg.ops.iter().enumerate() {
+        match op {
+            DOp::Edit(s) => {
+                let fi = it.apply(s);
+                let _ = std::fs::write(&paths[fi], &it.files[fi].text);
+                warm.analyze_file(PathBuf::from(&paths[fi]), &it.files[fi].text);
+                analyses.push((fi, it.files[fi].text.clone()));
+                info.classes.push(format!("op=edit-{}", edit_kind(&s.edit)));
+                if closed_or_evicted {
+                    info.nontrivial = true;
+                }
+            }
+            DOp::Close(f) => {
+                let fi = ((*f as usize) * it.files.len()) >> 16;
+                warm.cleanup_file_cache(Path::new(&paths[fi]));
+                closed_or_evicted = true;
+                info.classes.push(format!("op=close-{}", if it.files[fi].loc.is_conftest() { "conftest" } else if it.files[fi].loc.is_test() { "test" } else { "other" }));
+            }
+            DOp::Flood => {
+                for i in 0..2001 {
+                    warm.analyze_file(PathBuf::from(format!("{}/zz_flood/test_f{}.py", disk.root, i)), "x = 1\n");
+                }
+                closed_or_evicted = true;
+                info.classes.push("op=flood".into());
+                let evicted = it.files.iter().enumerate().filter(|(i, _)| !warm.file_cache.contains_key(Path::new(&paths[*i]))).count();
+                info.classes.push(format!("flood evicted {} workspace file(s)", evicted.min(3)));
+            }
+            DOp::Query(kind, f) => {
+                let fi = ((*f as usize) * it.files.len()) >> 16;
+                let w = query_disk(&warm, *kind, &paths[fi], &it.files[fi].text);
+                let c = query_disk(&cold(&analyses), *kind, &paths[fi], &it.files[fi].text);
+                info.checks += 1;
+                info.classes.push(format!("op=query-{}", QUERY_KINDS[(*kind % 7) as usize]));
+                if w != c {
+                    return Outcome::Fail(format!(
+                        "op #{}: query {} on {}: the long-lived index answers {} but an index that received the same analyses and no close / eviction answers {}",
+                        k,
+                        QUERY_KINDS[(*kind % 7) as usize],
+                        it.files[fi].loc.rel(),
+                        w,
+                        c
+                    ));
+                }
+            }
+        }
+        // after a close or an eviction everything is compared at once
+        if matches!(op, DOp::Close(_) | DOp::Flood) || (closed_or_evicted && matches!(op, DOp::Edit(_))) {
+            info.checks += 1;
+            if let Err(e) = compare_all(&warm, &analyses, &it, &format!("after op #{} ({})", k, match op { DOp::Close(_) => "close", DOp::Flood => "flood", _ => "edit after a close / eviction" })) {
+                return Outcome::Fail(e);
+            }
+        }
+    }
+    Outcome::Ok
+}
+
 fn edit_kind(e: &Edit) -> &'static str {
     match e {
         Edit::Remove(_) => "remove",
@@ -268,11 +415,13 @@ fn edit_kind(e: &Edit) -> &'static str {
         Edit::SetImports(_) => "imports-only",
         Edit::Break(_) => "break",
         Edit::Resend => "resend",
+        Edit::Retarget(_) => "retarget-imports",
     }
 }
 
 pub fn run(ctx: &Ctx) {
     ctx.run_prop("warm-vs-cold", ctx.tier.pick(8_000, 400_000), 16, program, |p, info| check_program(p, info));
+    ctx.run_prop_shrink("close-evict", ctx.tier.pick(600, 30_000), 16, 200, disk_program, |p, info| check_disk(p, info));
 }
 
 pub fn judge(_ctx: &Ctx, sub: &str, case: &Value) -> Option<Outcome> {
@@ -281,6 +430,10 @@ pub fn judge(_ctx: &Ctx, sub: &str, case: &Value) -> Option<Outcome> {
         "warm-vs-cold" => {
             let p: Program = from_case(case)?;
             Some(check_program(&p, &mut info))
+        }
+        "close-evict" => {
+            let p: DiskProgram = from_case(case)?;
+            Some(check_disk(&p, &mut info))
         }
         _ => None,
     }
